@@ -195,7 +195,14 @@ func TestVerifDLEQ(t *testing.T) {
 			d := withKV(base, "component", component, "variant", variant, "altered", stX.hex(), "altered_dst", prmX.DST, "proof", pb, "honest_proof", p0b)
 			if class == "noncanonical" {
 				d["note"] = "scalar encoding >= group order decodes and the proof verifies"
-				lib.Violation(gr.malleableKey("dleq.Verify"), mon, d)
+				key := gr.malleableKey("dleq.Verify")
+				if component == "proof.c" && !gr.isRistretto() {
+					// the known finding of the P-curves is about the response s (it
+					// enters the verification equation reduced); the challenge is
+					// compared as decoded, so c + N is a different violation
+					key = "C16:malleable-proof:dleq.Verify:challenge-plus-order"
+				}
+				lib.Violation(key, mon, d)
 				return
 			}
 			lib.Violation("C16:altered-accepted:dleq.Verify:"+component, mon, d)
